@@ -568,6 +568,25 @@ func (fc *FnCtx) specCall(env *SpecEnv, e *SCall) Val {
 				top = env.old.top
 			}
 			return Val{"(> " + t + " " + top + ")", boolT}
+		case "methodReceiver":
+			// methodReceiver(f, "*pkg.T", "M"): the receiver a with f == a.M (inverse of the method-value function)
+			f := args(0)
+			tn, mn := specTypeText(e.Args[1]), specTypeText(e.Args[2])
+			t := fc.eng.resolveType(env.pkg, tn)
+			if t == nil {
+				sfail("methodReceiver: unknown type %s", tn)
+			}
+			obj, _, _ := types.LookupFieldOrMethod(t, true, nil, mn)
+			m, ok := obj.(*types.Func)
+			if !ok {
+				sfail("methodReceiver: %s has no method %s", tn, mn)
+			}
+			mv := fc.methodValueTerm(Val{"a", t}, m)
+			mvName := mv[1:strings.Index(mv, " ")]
+			inv := "inv_" + mvName
+			smt.declare(inv, fmt.Sprintf("(declare-fun %s (Int) %s)", inv, smt.sortOf(t)))
+			smt.axiom(fmt.Sprintf("(forall ((a %s)) (! (= (%s (%s a)) a) :pattern ((%s a))))", smt.sortOf(t), inv, mvName, mvName))
+			return Val{"(" + inv + " " + f.T + ")", t}
 		case "allocated":
 			// the value refers to storage that exists in the current state (not to a later allocation)
 			x := args(0)
